@@ -740,10 +740,12 @@ class Plucker(SMUserList):
             return None
         else:
             # lines are skew or intersecting
-            w = np.cross(l1.w, l2.w)
-            v = np.cross(l1.v, l2.w) - np.cross(l2.v, l1.w) + \
-                (l1 * l2) * np.dot(l1.w, l2.w) * base.unitvec(np.cross(l1.w, l2.w))
-            
+            # the formula holds for lines with unit direction
+            w1, v1 = l1.uw, l1.v / np.linalg.norm(l1.w)
+            w2, v2 = l2.uw, l2.v / np.linalg.norm(l2.w)
+            w = np.cross(w1, w2)
+            v = np.cross(v1, w2) - np.cross(v2, w1) + \
+                (np.dot(w1, v2) + np.dot(w2, v1)) * np.dot(w1, w2) * base.unitvec(w)
         return Plucker(v, w)
 
 
